@@ -84,6 +84,7 @@ type scenario struct {
 	toggle  bool       // writer 0 also toggles 0.0.0.0/0
 	readers int
 	sixteen bool
+	twins   int
 }
 
 func genScenario(t *rapid.T) *scenario {
@@ -91,8 +92,22 @@ func genScenario(t *rapid.T) *scenario {
 	nstable := rapid.IntRange(1, 40).Draw(t, "nstable")
 	for i := 0; i < nstable; i++ {
 		ones := rapid.SampledFrom([]int{16, 20, 24, 28, 32}).Draw(t, "stableOnes")
+		if rapid.IntRange(0, 2).Draw(t, "stableTwin") == 0 {
+			// two ranges that begin at the same address, one inside the other (10.i.0.0/16 and 10.i.0.0/24), both present
+			// for the whole run: whichever is added second is a range of its own, not a repetition of the first
+			inner := prefix{10<<24 | uint32(i)<<16, rapid.SampledFrom([]int{17, 24, 28, 32}).Draw(t, "twinOnes")}
+			outer := prefix{10<<24 | uint32(i)<<16, 16}
+			if rapid.Bool().Draw(t, "innerFirst") {
+				sc.stable = append(sc.stable, inner, outer)
+			} else {
+				sc.stable = append(sc.stable, outer, inner)
+			}
+			sc.twins++
+			continue
+		}
 		sc.stable = append(sc.stable, prefix{(10<<24 | uint32(i)<<16 | uint32(rapid.IntRange(0, 65535).Draw(t, "stableLow"))) & mask(ones), ones})
 	}
+	nstable = len(sc.stable)
 	// preload so that the list is close to overflowing when the writers start
 	w := rapid.IntRange(1, 4).Draw(t, "writers")
 	// often exactly at the capacity of the list (256 entries), one below or one above it
@@ -369,8 +384,10 @@ func run(sc *scenario) (string, outcome) {
 		}
 	}
 	for _, p := range sc.stable {
-		if m := check(p.net); m != "" {
-			return m, oc
+		for _, v := range []uint32{p.net, p.net | ^mask(p.ones), p.net | (^mask(p.ones) >> 1)} {
+			if m := check(v); m != "" {
+				return m, oc
+			}
 		}
 	}
 	if m := check(30<<24 | 5); m != "" {
@@ -388,6 +405,9 @@ func TestScenarios(t *testing.T) {
 		}
 		if oc.crossed {
 			ev.Label("crossed_256_during_run")
+		}
+		if sc.twins > 0 {
+			ev.Label("stable_ranges_that_begin_at_the_same_address")
 		}
 		if oc.switchedDuringReads {
 			ev.Label("switch_while_readers_active")
